@@ -20,8 +20,9 @@ func init() {
 		Title: "Admin operations reach the right broker and report its verdict",
 		Explain: "Decides: retryOnError calls the operation before any return, whatever Admin.Retry.Max is (C19.attempt); the retried operation carries no state from one attempt to the next — every variable it both writes and reads is its own or re-initialised first — so a later clean acknowledgement is not overruled by an earlier attempt's error (C19.attempt-local); each controller-bound operation sends its request to the broker returned by Controller() inside the retried closure, refreshes the controller on NOT_CONTROLLER and returns an error the retry predicate recognises (C19.controller); success (nil) is returned only when the item is present and its error code is ErrNoError (C19.verdict); leader/coordinator-bound operations take their broker from Leader()/Coordinator(), per item when they span several (C19.routing); " +
 			"every constant request version stored anywhere in the library is guarded by a configured-version test that implies the version the request type itself requires, so Broker.send cannot refuse it with ErrUnsupportedVersion (C19.version); the fan-out operations pair every WaitGroup.Add with a Done (C12.pairing, shared). " +
+			"the per-item verdicts the operations read are decoded one object per item (C09.fresh-element over the admin responses, shared). " +
 			"NOT covered: number of controller moves versus Retry.Max at run time, the brokers' verdicts themselves.",
-		Rules: []func(*Ctx){c19Attempt, c19AttemptLocal, c19PerRequestFresh, c19Controller, c19Verdict, c19KErrorOrdered, c19Routing, c19Version, c19VersionFloor, c12Pairing, c15Brokers, c19ErrLost, c15Deadline},
+		Rules: []func(*Ctx){c19Attempt, c19AttemptLocal, c19PerRequestFresh, c19Controller, c19Verdict, c19KErrorOrdered, c19Routing, c19Version, c19VersionFloor, c12Pairing, c15Brokers, c19ErrLost, c15Deadline, c19FreshElement},
 	})
 }
 
